@@ -7,4 +7,5 @@ let table : (string * (z list -> z list)) list = [
   "m1c", m1c_entry;
   "m1c_h", m1c_h_entry;
   "m1s", m1s_entry;
+  "c08rt", c08rt_entry;
 ]
